@@ -101,8 +101,78 @@ def run_shared(spec):
             'classes': ['shared_node_' + spec['form']], 'summary': {'values': len(spec['values'])}}
 
 
+def gen_watchers(r):
+    """2-3 processes view the children of one store through glob ports whose sub-topologies map the same
+    port variable (under one nested key) to different nodes of the child."""
+    n = r.randint(2, 3)
+    return {'family': 'glob_subtopology', 'n': n, 'children': ['c%d' % k for k in range(r.randint(1, 3))],
+            'nested': r.random() < 0.7, 'ticks': r.randint(1, 3), 'order': r.sample(range(n), n)}
+
+
+def run_watchers(spec):
+    from vivarium.core.engine import Engine
+    from vivarium.core.process import Process
+    V = Viol()
+    n = spec['n']
+
+    class Watch(Process):
+        def ports_schema(self):
+            x = {'x': {'_default': 0}}
+            return {'agents': {'*': {'inner': x} if spec['nested'] else x}}
+
+        def next_update(self, timestep, states):
+            inc = self.parameters['inc']
+            self.seen = copy.deepcopy(states)
+            return {'agents': {k: ({'inner': {'x': inc}} if spec['nested'] else {'x': inc}) for k in states['agents']}}
+
+    class Owner(Process):
+        def ports_schema(self):
+            return {'s': {'n%d' % j: {'_default': 0} for j in range(n)}}
+
+        def next_update(self, timestep, states):
+            return {}
+    procs, tops, given = {}, {}, {}
+    for j in spec['order']:
+        # (a '_path' directly inside '*' would name the glob store itself, so the flat form spells the node out)
+        sub = {'_path': ('s',), 'x': ('n%d' % j,)}
+        t = {'agents': {'_path': ('agents',), '*': {'inner': sub} if spec['nested'] else {'x': ('s', 'n%d' % j)}}}
+        procs['w%d' % j] = Watch({'inc': 10 ** j, 'timestep': 1.0})
+        tops['w%d' % j] = t
+        given[j] = copy.deepcopy(t)
+    procs['agents'] = {c: {'o': Owner({'timestep': 1.0})} for c in spec['children']}
+    tops['agents'] = {c: {'o': {'s': ('s',)}} for c in spec['children']}
+    try:
+        e = Engine(processes=procs, topology=tops, display_info=False, emitter='null')
+        for _ in range(spec['ticks']):
+            e.update(1.0)
+        st = e.state.get_value()['agents']
+    except Exception as ex:
+        import traceback
+        V.check('write_lands_on_node', False, ('glob sub-topology case raised', type(ex).__name__, str(ex)[:200], traceback.format_exc()[-300:]))
+        return {'viol': list(V), 'evals': V.evals, 'nontrivial': False}
+    for c in spec['children']:
+        for j in range(n):
+            exp = spec['ticks'] * 10 ** j
+            V.check('write_lands_on_node', st[c]['s']['n%d' % j] == exp,
+                    lambda: ('watcher %d writes x to child node s/n%d: expected %d after %d ticks, the child holds %r' % (
+                        j, j, exp, spec['ticks'], st[c]['s'])))
+    for j in range(n):
+        w = procs['w%d' % j]
+        seen = getattr(w, 'seen', {}).get('agents', {})
+        for c in spec['children']:
+            got = seen.get(c, {})
+            got = got.get('inner', {}).get('x') if spec['nested'] else got.get('x')
+            V.check('read_is_node_value', got == (spec['ticks'] - 1) * 10 ** j,
+                    lambda: ('watcher %d read %r for child %s, its node s/n%d held %d' % (j, got, c, j, (spec['ticks'] - 1) * 10 ** j)))
+    return {'viol': list(V), 'evals': V.evals, 'nontrivial': True, 'classes': ['glob_subtopology'],
+            'summary': {'watchers': n}}
+
+
 def gen(r, tier, i):
-    if r.random() < 0.08:
+    k = r.random()
+    if k < 0.04:
+        return gen_watchers(r)
+    if k < 0.12:
         return gen_shared(r)
     case = topo.gen_case(r, maxports=4 if tier == 'quick' else 5)
     case['run_twice'] = r.random() < 0.3
@@ -157,6 +227,8 @@ def expand(ref, tree):
 def run(spec):
     if spec.get('family') == 'shared_node':
         return run_shared(spec)
+    if spec.get('family') == 'glob_subtopology':
+        return run_watchers(spec)
     from vivarium.core.engine import Engine
     from vmon.sensors import plain_values
     V = Viol()
